@@ -16,14 +16,22 @@ RULE = (
     "yield condition / monotone plastic strain hold, nothing is yielded after a failure, the exception propagates and "
     "state variables stay bit-equal to the last committed copy. Elastic: two generated subdivisions of the same end "
     "value give the same final state. Non-trivial: >= 1 load reversal or repeated value, or an injected failure."
-    " family 'ramped-items': PointLoad (also axisymmetric) and gravity ramped by a Step through item.update; class 'mixed-or': a history material inside the three-field wrapper."
+    " family 'ramped-items': PointLoad (also axisymmetric) and gravity ramped by a Step through item.update; class 'mixed-or': a history material inside the three-field wrapper; class 'or-composite': a history material as first part of a composite (a & b)."
 )
 ASSUMPTIONS = [
     "a non-converging substep is injected with a NaN ramp value (deterministic ValueError of the Newton solver); generated large jumps may additionally fail to converge and are treated as legitimate failures",
     "tolerances: ramp values exact to 4 ulp, state recomputation 1e-9, subdivision independence 1e-7",
 ]
 
-CLASSES = ["elastic", "or-hand", "or-ad", "plastic", "mixed", "mixed-or", "condensed"]
+CLASSES = ["elastic", "or-hand", "or-ad", "or-composite", "plastic", "mixed", "mixed-or", "condensed"]
+
+
+class SplitBase:
+    """reference behaviour of 'softened isochoric part & volumetric part': energy of the part that softens, stress of the sum."""
+
+    def __init__(self, iso, total):
+        self.function = iso.function
+        self.gradient = total.gradient
 
 
 def fl(lo, hi, nd=3):
@@ -85,6 +93,13 @@ def setup(cls, case, fem):
         vol = fem.SolidBody(fem.Volumetric(bulk=bulk), fc)
         base = fem.NeoHooke(mu=mu)
         return mesh, region, fc, [body, vol], body, base, 1.0
+    elif cls == "or-composite":
+        # a composite material (a & b) whose FIRST material carries the state variables (documented: "state variables are only
+        # considered for the first material")
+        iso = fem.NeoHooke(mu=mu)
+        vol = fem.Volumetric(bulk=bulk)
+        body = fem.SolidBody(fem.OgdenRoxburgh(iso, r=case["r"], m=case["m"], beta=case["beta"]) & vol, fc)
+        base = SplitBase(iso, iso & vol)
     elif cls == "plastic":
         body = fem.SolidBody(fem.LinearElasticPlasticIsotropicHardening(E=100.0, nu=0.3, sy=1.0, K=10.0), fc)
         scale = 0.08
@@ -110,7 +125,7 @@ def check(cls, case, rec):
     X = np.array(mesh.points)
     L = float(np.ptp(X[:, 0]))
     mdof = move.dof  # dofs of the first field carrying the ramped value
-    has_state = cls in ("or-hand", "or-ad", "plastic", "mixed-or")
+    has_state = cls in ("or-hand", "or-ad", "or-composite", "plastic", "mixed-or")
     committed = np.array(body.results.statevars, dtype=float).copy() if has_state else None
     wmax_model = None
     alpha_prev = None
